@@ -36,6 +36,8 @@ RULE = ('cases: one structure (Obs / list / ndarray of 0-4 dimensions / Corr N=1
         'pickle; alias cases: the same Obs at several positions of a list / array / Corr / dict / file / frame; inputs as int32 / int64 / list / range lists, '
         'strided sample and fluctuation arrays, Fortran / transposed / negative-stride object arrays, Corr from list / 1-d / 3-d array / array of Corr / views, '
         'covariance as scalar / 1-d / 2-d list or array with entries 1e-240..1e240 and gradients 1e-70..1e70; T = 1, empty dicts, zero-length description; '
+        'neartwin kind: distinct members that the tolerance-based == and the hash of Obs cannot tell apart (copy with another tag, numbers shifted by 1e-12, '
+        'no tag) in every container and frame column, in random order, next to repeated identical objects; '
         'reject kind: members with equal names / first / last / length and different interior in one structure must be refused; bulk kind: 12-103 members, T up to 101, '
         '12 / 101 structures per file, dicts with 11-101 structures; configuration numbers beyond 2**31; spectators (coefficient exactly 0, zero gradient entries); '
         'second write of the same object gives the same document; counters j:<mechanism> report how often each judgement ran; '
@@ -167,7 +169,7 @@ def teardown(ctx):
 def plan(tier):
     m = 1 if tier == 'quick' else 20
     return [('obs', 220 * m), ('list', 150 * m), ('array', 170 * m), ('corr1', 150 * m), ('corrN', 90 * m), ('multi', 80 * m),
-            ('dict', 140 * m), ('frame', 200 * m), ('pickle', 160 * m), ('rew', 120 * m), ('edge', 150 * m), ('history', 160 * m), ('alias', 70 * m), ('reject', 60 * m), ('bulk', 40 * m)]
+            ('dict', 140 * m), ('frame', 200 * m), ('pickle', 160 * m), ('rew', 120 * m), ('edge', 150 * m), ('history', 160 * m), ('alias', 70 * m), ('reject', 60 * m), ('bulk', 40 * m), ('neartwin', 120 * m)]
 
 
 # ------------------------------------------------------------------------------------------
@@ -1448,6 +1450,102 @@ def run_bulk(ctx, rng, idx, tmp):
     ctx.sample({'structure': shape, 'support': support, 'transport': transport})
 
 
+# ------------------------------------------------------------------------------------------
+# distinct members that the library's own == / hash cannot tell apart (equal elements, order of equivalent inputs)
+# ------------------------------------------------------------------------------------------
+def near_twins(rng, a):
+    """Observables on a's chains that compare equal to a with the tolerance-based == (and hash alike) but are different
+    objects with different content: another tag, numbers shifted far below the == tolerance, another reweighted flag."""
+    sc = abs(a.value) + max([float(np.max(np.abs(d))) for d in a.deltas.values() if len(d)] or [0.0])
+    t_tag = 1.0 * a
+    t_tag.tag = {'source': 'smeared', 'n': 2} if rng.random() < 0.5 else ('other tag' if a.tag != 'other tag' else 'another tag')
+    t_val = a + 1e-12 * sc                 # central value and replica means shifted, same fluctuations
+    t_val.tag = copy.deepcopy(a.tag)
+    t_del = a * (1.0 + 3e-12)              # everything rescaled by 1 + 3e-12
+    t_del.tag = None
+    t_none = 1.0 * a                       # same numbers, no tag at all
+    return [t_tag, t_val, t_del, t_none]
+
+
+def run_neartwin(ctx, rng, idx, tmp):
+    support = SUPPORTS[idx % 5]
+    shape = ['frame', 'list', 'frame', 'array', 'frame', 'corr1', 'frame', 'dict', 'frame', 'multi', 'frame', 'pickle'][(idx // 5) % 12]
+    fam = Family(PE, rng, support, nmin=5, nmax=16, mags='unit' if rng.random() < 0.7 else 'any')
+    a = fam.member()
+    a.tag = ['point source', 0, None, 'tag'][int(rng.integers(0, 4))]
+    tw = near_twins(rng, a)
+    pool = [a] + tw
+    order = [int(i) for i in rng.permutation(len(pool))]           # the original is not always the first one met
+    seq = [pool[i] for i in order]
+    ctx.count('neartwin_cases')
+    ctx.count('neartwin_members', len(seq))
+    opts = {'neartwin': shape, 'order': order}
+    ctx.cell('neartwin', shape, support)
+    if shape == 'frame':
+        import pandas as pd
+        transport = FRAME_TRANSPORTS[(idx // 10) % 4]
+        gz = transport.endswith('.gz')
+        rows = seq + [a, tw[0]]                                       # the same object again, after its twins
+        cols = {'id': list(range(len(rows))), 'o1': rows, 'o2': rows[::-1],
+                'l': [[rows[i], rows[(i + 1) % len(rows)]] for i in range(len(rows))],
+                'k': [PE.Corr([rows[i], rows[(i + 2) % len(rows)]]) for i in range(len(rows))]}
+        df = pd.DataFrame(cols)
+        frozen = freeze(cols)
+        if transport.startswith('csv'):
+            PIO.dump_df(df, os.path.join(tmp, 'nt'), gz=gz)
+            back = PIO.load_df(os.path.join(tmp, 'nt'), gz=gz)
+            famn = 'df-csv'
+        else:
+            PIO.to_sql(df, 'tab', os.path.join(tmp, 'nt.sqlite'), gz=gz)
+            back = PIO.read_sql('SELECT * from tab', os.path.join(tmp, 'nt.sqlite'))
+            famn = 'df-sql'
+        opts['transport'] = transport
+        if not ctx.require(len(back) == len(rows) and [int(i) for i in back['id']] == cols['id'], famn + ':frame-shape', {'rows': len(back)}):
+            return
+        post_checks(ctx, cols, frozen, {c: list(back[c]) for c in ('o1', 'o2', 'l', 'k')}, famn)
+        for c in ('o1', 'o2', 'l', 'k'):
+            for i in range(len(rows)):
+                compare(ctx, rng, back[c][i], cols[c][i], Profile(famn), 'near twins %s[%d]' % (c, i), dict(opts, column=c, row=i), separate=isinstance(cols[c][i], list))
+        ctx.sample({'structure': 'frame of near twins', 'support': support, 'transport': transport, 'order': order,
+                    'tags': [repr(o.tag) for o in rows], 'values': [o.value for o in rows]})
+        return
+    if shape == 'list':
+        x = [seq]
+    elif shape == 'array':
+        x = np.empty(len(seq), dtype=object)
+        for i, o in enumerate(seq):
+            x[i] = o
+    elif shape == 'corr1':
+        x = PE.Corr(seq)
+    elif shape == 'dict':
+        x = {'k%d' % i: o for i, o in enumerate(seq)}
+        x['both'] = [seq[0], seq[1]]
+        x['mixed'] = [seq[2], 'sep', seq[0]]
+    else:
+        x = list(seq) + [[seq[0], seq[1]]]                            # separate structures of one file (also for pickle)
+    frozen = freeze(x)
+    if shape == 'dict':
+        JIO.dump_dict_to_json(x, os.path.join(tmp, 'ntd'))
+        r = JIO.load_json_dict(os.path.join(tmp, 'ntd'), verbose=False)
+        post_checks(ctx, x, frozen, r, 'jsondict')
+        compare(ctx, rng, r, x, Profile('jsondict'), 'near twins dict', opts)
+    elif shape == 'pickle':
+        PE.misc.dump_object(x, 'ntp', path=tmp)
+        r = PE.misc.load_object(os.path.join(tmp, 'ntp.p'))
+        post_checks(ctx, x, frozen, r, 'pickle', same_objects_allowed=True)
+        compare(ctx, rng, r, x, P_PICKLE, 'near twins pickle', opts)
+    else:
+        if rng.random() < 0.5:
+            r = JIO.import_json_string(JIO.create_json_string(x, indent=int(rng.integers(0, 2))), verbose=False)
+        else:
+            JIO.dump_to_json(x, os.path.join(tmp, 'ntf'))
+            r = JIO.load_json(os.path.join(tmp, 'ntf'), verbose=False)
+        separate = isinstance(x, list) and len(x) != 1
+        post_checks(ctx, x, frozen, r, 'json')
+        compare(ctx, rng, r, x if separate else expect_top(x), P_JSON, 'near twins ' + shape, opts, separate=separate)
+    ctx.sample({'structure': shape + ' of near twins', 'support': support, 'order': order, 'tags': [repr(o.tag) for o in seq]})
+
+
 def run_case(ctx, kind, idx, rng):
     with tempfile.TemporaryDirectory(prefix='vmon_C11_', dir='/var/tmp') as tmp:
         support = SUPPORTS[idx % 5]
@@ -1485,5 +1583,7 @@ def run_case(ctx, kind, idx, rng):
             run_reject(ctx, rng, idx, tmp)
         elif kind == 'bulk':
             run_bulk(ctx, rng, idx, tmp)
+        elif kind == 'neartwin':
+            run_neartwin(ctx, rng, idx, tmp)
         else:
             raise ValueError(kind)
